@@ -465,3 +465,53 @@ def push_wrappers(P, entry_adt="chess_movegen::iter::LegalMovesAt"):
         if idx is not None:
             out[k] = idx
     return out
+
+
+def ab_wrappers(P):
+    """{non-pub function of chess_engine that stands for one alphabeta call: {"form": "plain" | "option", "mv": index, "args": index}}: its every
+    path returns alphabeta(self, <its move parameter>, <its args parameter>) - as it is, or as Some(..) when the time limit has not expired and None
+    when it has (evaluated on the function's own paths)."""
+    from . import terms as T
+    if getattr(P, "_abw", None) is not None and P._abw[0] == len(P.fns):
+        return P._abw[1]
+    ab = P.find_fn("Engine::alphabeta", "chess_engine")
+    out = {}
+    P._abw = (len(P.fns), out)
+    for k, b in P.fns.items():
+        if b["crate"] != "chess_engine" or k == ab or "::{" in k or "promoted" in k or b.get("vis") == "pub":
+            continue
+        if not any(T.strip_generics(t_["f"].get("fn", "")) == ab for _, t_ in P.calls(k)):
+            continue
+        try:
+            lv = T.Engine(P, opaque={ab}).tabulate(k)
+        except T.NotTabulable:
+            continue
+        forms, idx, ok = set(), set(), bool(lv)
+        for lf in lv:
+            r = lf.ret
+            tmo = [(t_, v) for t_, v in lf.cond if (t_[0] == "app" and "is_complete" in t_[1]) or (t_[0] == "un" and t_[1] == "Not" and t_[2][0] == "app" and "is_complete" in t_[2][1])]
+            expired = [bool(v) if t_[0] == "app" else not bool(v) for t_, v in tmo]
+            if r == T.OPT_NONE:
+                forms.add("option")
+                ok &= expired == [True] and len(lf.cond) == 1
+                continue
+            if r[0] == "adt" and r[1] == "core::option::Option" and r[2] == "Some":
+                forms.add("option")
+                ok &= expired == [False] and len(lf.cond) == 1
+                r = r[3][0]
+            else:
+                forms.add("plain")
+                ok &= not lf.cond
+            if not (r[0] == "app" and T.strip_generics(r[1]) == ab and len(r[2]) == 3):
+                ok = False
+                break
+            prm = [a[1] if a[0] in ("refv", "obj") and isinstance(a[1], tuple) else a for a in r[2]]
+            prm = [a[1] if a[0] in ("refv", "obj") and isinstance(a[1], tuple) else a for a in prm]
+            if not all(a[0] == "param" for a in prm) or prm[0][1] != 0:
+                ok = False
+                break
+            idx.add((prm[1][1], prm[2][1]))
+        if ok and len(forms) == 1 and len(idx) == 1:
+            mv, ar = list(idx)[0]
+            out[k] = {"form": list(forms)[0], "mv": mv, "args": ar}
+    return out
